@@ -421,14 +421,25 @@ class InstanceValue(Object):
         self.cls = cls
 
     @cached_property
-    def _attrs(self):
+    def _assigned(self):
         # type: () -> Attributes
-        attrs = self.cls._attrs.copy()
+        """Attributes assigned through self in the methods of the class and of its bases"""
+        attrs = {}  # type: Attributes
         for b in reversed(self.cls.bases):
             o = b.call(self.ctx)
-            if o:
-                attrs.update(o._attrs)
+            if isinstance(o, InstanceValue):
+                attrs.update(o._assigned)
         attrs.update(self.cls.scope.top.assigns(self.ctx).get(self, {}))
+        return attrs
+
+    @cached_property
+    def _attrs(self):
+        # type: () -> Attributes
+        # lookup order of an instance: what was assigned through self, then the
+        # class and its bases in their own precedence (a base must not override
+        # what the class itself defines)
+        attrs = self.cls._attrs.copy()
+        attrs.update(self._assigned)
         return attrs
 
 
